@@ -4,7 +4,7 @@ from __future__ import annotations
 import ast
 import itertools
 
-from .. import astu, flow, types
+from .. import astu, evid, flow, types
 from ..cfg import cfg_of
 from ..model import AnalysisError
 from ..report import key_of
@@ -25,54 +25,84 @@ def _is_call(e, name):
 def r1(R, repo):
   mod = repo.mod(SC)
   b = mod.func('bind')
-  ctor = [c for c in astu.func_calls(b) if astu.call_name(c) == 'Scope']
-  R.require(len(ctor) == 1, 'bind: Scope(...) construction not found')
+  ctor = evid.find_calls(b, 'Scope')
+  R.require(len(ctor) >= 1, 'bind: Scope(...) construction not found')
   ps = astu.params(b.node)
-  first = ctor[0].args[0] if ctor[0].args else astu.kwarg(ctor[0], 'variables')
-  ok = flow.must_derive(b, first, lambda e: _is_call(e, '_unfreeze_variables') and [astu.src(a) for a in e.args] == [ps[0], 'mutable'])
-  R.check(ok, key_of(b, 'Scope built from _unfreeze_variables(variables, mutable)'), (b, ctor[0]),
-          'bind must give the Scope the dict built by _unfreeze_variables(variables, mutable), never the caller\'s `variables` itself')
-  R.check(flow.kw_forwarded(ctor[0], 'mutable'), key_of(b, 'Scope(mutable=mutable)'), (b, ctor[0]),
-          'the Scope must be mutable for exactly the filter the copy was made for')
+  for call in ctor:
+    key = key_of(b, 'Scope built from _unfreeze_variables(variables, mutable)')
+    st, first = evid.passed_value(repo, mod, b, call, 'variables', 0)
+    fl = evid.raw3(b, first, ps[0], ('_unfreeze_variables',)) if st == evid.YES else evid.UNKNOWN
+    if fl == evid.RAW:
+      R.fail(key, (b, call), 'bind gives the Scope the caller\'s own `%s` (through `%s`): the scope would write into the input of apply; it must be the dict built by '
+             '_unfreeze_variables(variables, mutable)' % (ps[0], astu.short(first)))
+    elif fl == evid.CLEAN and flow.must_derive(b, first, evid.call_named('_unfreeze_variables')):
+      R.ok(key, (b, call))
+    else:
+      R.unsure(key, (b, call), 'cannot tell where the first argument of Scope(...) in bind comes from')
+    evid.judge_forward(R, repo, b, call, ['mutable'], key_of(b, 'Scope(mutable=mutable)'), 'the Scope must be mutable for exactly the filter the copy was made for')
+  for call in evid.find_calls(b, '_unfreeze_variables'):
+    evid.judge_forward(R, repo, b, call, [ps[0], 'mutable'], key_of(b, '_unfreeze_variables(variables, mutable)'), 'the copy must be made of `variables` for the same filter', pos={ps[0]: 0, 'mutable': 1})
   u = mod.func('_unfreeze_variables')
   c = cfg_of(u)
   vp, mp = astu.params(u.node)[:2]
   loops = [n for n in c.nodes if n.kind == 'for']
-  R.require(len(loops) == 1 and astu.src(loops[0].ast) == '%s.items()' % vp, '_unfreeze_variables: loop over variables.items() not found')
+  R.require(len(loops) == 1 and astu.src(loops[0].ast) == '%s.items()' % vp and isinstance(loops[0].stmt.target, ast.Tuple), '_unfreeze_variables: loop over variables.items() not found')
   k, v = [astu.src(e) for e in loops[0].stmt.target.elts]
-  tests = [n for n in c.nodes if n.kind == 'if' and _is_call(n.ast, 'in_filter') and [astu.src(a) for a in n.ast.args] == [mp, k]]
+  is_test = lambda e: _is_call(e, 'in_filter') and [astu.src(a) for a in e.args] == [mp, k]
   stores = [n for n in c.nodes if isinstance(n.stmt, ast.Assign) and isinstance(n.stmt.targets[0], ast.Subscript)]
-  R.require(len(tests) == 1 and stores, '_unfreeze_variables: in_filter(mutable, key) test / stores not found')
+  R.require(stores and evid.est_edges(c, is_test), '_unfreeze_variables: in_filter(mutable, key) test / stores not found')
   out = astu.src(stores[0].stmt.targets[0].value)
   bad = [s for s in stores if astu.src(s.stmt.targets[0].value) != out or astu.src(s.stmt.targets[0].slice) != k]
   fresh = types.single_def(u.node, out)
-  ok = not bad and isinstance(fresh, ast.Dict) and not fresh.keys and out != vp
-  ok = ok and any(astu.src(n.stmt.value) == out for n in c.nodes if isinstance(n.stmt, ast.Return))
-  R.check(ok, key_of(u, 'builds and returns a fresh top-level dict'), u, '_unfreeze_variables must fill and return a new dict and never assign into the caller\'s mapping')
-  for s in stores:
-    if c.edge_guarded(s, tests[0], 'T'):
-      val = s.stmt.value
-      okc = isinstance(val, ast.Call) and astu.call_name(val) in ('unfreeze',) and astu.src(val.args[0]) == v
-      R.check(okc, key_of(u, 'mutable collection copied with unfreeze'), (u, s.stmt),
-              'a collection selected by `mutable` must be stored as unfreeze(value) (a structural copy); `%s` aliases the caller\'s collection, so apply would write into its input' % astu.short(s.stmt))
-  mut_stores = [s for s in stores if c.edge_guarded(s, tests[0], 'T')]
+  key = key_of(u, 'builds and returns a fresh top-level dict')
+  if out == vp or evid.raw3(u, stores[0].stmt.targets[0].value, vp) == evid.RAW:
+    R.fail(key, (u, stores[0].stmt), '_unfreeze_variables assigns into the caller\'s mapping `%s` instead of a new dict' % vp)
+  else:
+    ok = not bad and isinstance(fresh, (ast.Dict, ast.Call)) and not getattr(fresh, 'keys', None) and (not isinstance(fresh, ast.Call) or (astu.call_name(fresh) == 'dict' and not fresh.args and not fresh.keywords))
+    ok = ok and any(astu.src(n.stmt.value) == out for n in c.nodes if isinstance(n.stmt, ast.Return))
+    R.check(ok, key, u, '_unfreeze_variables must fill and return a new dict and never assign into the caller\'s mapping')
+  mut_stores = [s for s in stores if evid.guarded(c, s, is_test) == 'yes']
+  for s in mut_stores:
+    val = s.stmt.value
+    key = key_of(u, 'mutable collection copied with unfreeze')
+    fl = evid.raw3(u, val, v, ('unfreeze', 'deepcopy'))
+    if fl == evid.RAW:
+      R.fail(key, (u, s.stmt), 'a collection selected by `mutable` must be stored as unfreeze(value) (a structural copy); `%s` aliases the caller\'s collection, so apply would write into its input' % astu.short(s.stmt))
+    elif isinstance(val, ast.Call) and astu.call_name(val) == 'unfreeze' and astu.src(val.args[0]) == v:
+      R.ok(key, (u, s.stmt))
+    else:
+      R.unsure(key, (u, s.stmt), 'cannot tell whether `%s` copies the collection' % astu.short(val))
   head = loops[0]
   firsts = [m for m, lab in c.succ[head] if lab == 'T']
   ok = len(mut_stores) >= 1 and all(s in stores or head not in c.reach([s], avoid=stores) for s in firsts)
-  R.check(ok, key_of(u, 'every collection stored once, mutable ones on the copying branch'), u, 'every collection must be stored; the ones matching `mutable` on the copying branch')
+  R.check(ok, key_of(u, 'every collection stored once, mutable ones on the copying branch'), u, 'every collection must be stored; the ones matching `mutable` on the copying branch (a path through the loop body '
+          'stores nothing, or no store happens under in_filter(mutable, key))', evidence=True)
   _c15.check_unfreeze(R, repo)
 
 
+# stores whose receiver is (an alias of) a variable collection: the only functions allowed to hold one
+COLLECTION_WRITERS = {
+    'Scope._mutable_collection': 'creates a collection entry under `assert is_mutable_collection` / caches the parent\'s dict',
+    'Scope._collection': 'caches a reference to the parent collection in the private dict',
+    'Scope.put_variable.put': 'the write primitive of put_variable',
+}
 SCOPE_STORE_TABLE = {
-    ('Scope._mutable_collection', 'self._variables'): 'guarded-or-cache',
-    ('Scope._mutable_collection', 'parent_col'): 'guarded',
-    ('Scope._collection', 'self._variables'): 'cache',
-    ('Scope.put_variable.put', 'target'): 'put',
     ('Scope.push', 'self.rng_counters'): 'rng bookkeeping',
     ('Scope.make_rng', 'self.rng_counters'): 'rng bookkeeping',
     ('_unfreeze_variables', 'new_variables'): 'fresh dict',
     ('group_collections', 'group'): 'fresh group dict',
 }
+_FRESH = lambda e: (isinstance(e, ast.Dict) and not e.keys) or (isinstance(e, ast.Call) and astu.call_name(e) in ('dict', 'collections.defaultdict', 'defaultdict', 'set', 'list')) or isinstance(e, (ast.DictComp, ast.ListComp, ast.List, ast.Dict))
+_IS_MUT = lambda e: isinstance(e, ast.Call) and (astu.call_tail(e) or '') == 'is_mutable_collection'
+
+
+def _collection_alias(f, base):
+  """Does the receiver of a subscript store (may) denote a variable-collection dict of a Scope?"""
+  txt = astu.src(base)
+  if '_variables' in txt:
+    return True
+  hit = lambda e: isinstance(e, (ast.Attribute, ast.Call, ast.Subscript)) and ('_variables' in astu.src(e) or (isinstance(e, ast.Call) and (astu.call_tail(e) or '') in ('_mutable_collection', '_collection')))
+  return flow.may_derive(f, base, hit)
 
 
 @rule('C01.R2', 'K1+K3', 8, 'every write into a variable collection is guarded by the mutability test')
@@ -80,54 +110,79 @@ def r2(R, repo):
   mod = repo.mod(SC)
   for q, f in mod.funcs.items():
     for n in astu.body_walk(f.node):
-      tgt = None
-      if isinstance(n, ast.Subscript) and isinstance(n.ctx, (ast.Store, ast.Del)):
-        tgt = n
-      if tgt is None:
+      if not (isinstance(n, ast.Subscript) and isinstance(n.ctx, (ast.Store, ast.Del))):
         continue
-      base = astu.src(tgt.value)
+      base = astu.src(n.value)
       key = key_of(f, 'store into %s[...]' % base)
-      kind = SCOPE_STORE_TABLE.get((q, base))
-      if kind is None:
-        R.fail(key, (f, n), 'new in-place store `%s` in scope.py is not in the table of reviewed variable-dict writers' % astu.short(astu.enclosing_stmt(n)))
+      root = n.value
+      while isinstance(root, (ast.Attribute, ast.Subscript)):
+        root = root.value
+      if (q, base) in SCOPE_STORE_TABLE:
+        R.ok(key, (f, n), SCOPE_STORE_TABLE[(q, base)])
+        continue
+      if q == 'Scope.put_variable.put':
+        R.ok(key, (f, n), 'checked through put_variable')
+        continue
+      if not _collection_alias(f, n.value):
+        ds = flow.defs(f, root.id) if isinstance(root, ast.Name) else []
+        if ds and all(isinstance(d[0], ast.AST) and _FRESH(d[0]) for d in ds):
+          R.ok(key, (f, n), 'container created in this function')
+        else:
+          R.unsure(key, (f, n), 'in-place store `%s` in scope.py: cannot tell whether the receiver is a variable collection' % astu.short(astu.enclosing_stmt(n)))
         continue
       c = cfg_of(f)
       nodes = c.nodes_for(n)
-      if q == 'Scope._mutable_collection':
-        asserts = [x for x in c.nodes if isinstance(x.stmt, ast.Assert) and 'is_mutable_collection' in astu.src(x.stmt.test)]
-        is_cache = isinstance(astu.enclosing_stmt(n).value, ast.Subscript)
-        ok = bool(asserts) and all(c.dominated(x, asserts) for x in nodes)
-        if is_cache:
-          R.ok(key + ' (cache of parent reference)', (f, n), 'child scope caches a reference in its private dict')
-        else:
-          R.check(ok, key + ' = {}', (f, n), 'creating a collection entry must be dominated by `assert self.is_mutable_collection(col)`')
-      elif kind == 'put':
-        R.ok(key, (f, n), 'checked through put_variable')
+      stmt = astu.enclosing_stmt(n)
+      is_cache = isinstance(getattr(stmt, 'value', None), ast.Subscript) or (isinstance(getattr(stmt, 'value', None), ast.Name) and q in COLLECTION_WRITERS)
+      if is_cache and q in COLLECTION_WRITERS:
+        R.ok(key + ' (cache of parent reference)', (f, n), 'child scope caches a reference in its private dict')
+        continue
+      g = [evid.guarded(c, x, _IS_MUT) for x in nodes]
+      if g and all(x == 'yes' for x in g):
+        R.ok(key + ' = {}' if q == 'Scope._mutable_collection' else key, (f, n), 'dominated by the mutability test')
+      elif q in COLLECTION_WRITERS or not q.split('.')[-1].startswith('_'):
+        R.fail(key + ' = {}' if q == 'Scope._mutable_collection' else key, (f, n), '`%s` writes a variable collection without being dominated by an is_mutable_collection test/assert: %s' % (
+            astu.short(stmt), evid.guard_witness(c, nodes[0], _IS_MUT) if nodes else ''))
       else:
-        R.ok(key, (f, n), kind)
+        R.unsure(key, (f, n), 'new private writer of a variable collection `%s`: cannot tell whether its callers test mutability' % astu.short(stmt))
   pv = mod.func('Scope.put_variable')
   c = cfg_of(pv)
-  tests = [n for n in c.nodes if n.kind == 'if' and 'is_mutable_collection' in astu.src(n.ast)]
-  raises = [n for n in c.nodes if isinstance(n.stmt, ast.Raise) and astu.raised_name(n.stmt) == 'ModifyScopeVariableError']
-  writes = [n for x in astu.func_calls(pv) if astu.call_name(x) in ('put', 'self._mutable_collection') for n in c.nodes_for(x)]
+  writes = evid.nodes_of(c, evid.find_calls(pv, 'put', '_mutable_collection'))
   R.require(len(writes) >= 2, 'put_variable: _mutable_collection / put calls not found')
-  if not tests or not raises:
-    R.fail(key_of(pv, 'immutable collection raises'), pv, 'put_variable no longer raises ModifyScopeVariableError for an immutable collection: the write would take effect')
+  key = key_of(pv, 'immutable collection raises')
+  g = [evid.guarded(c, w, _IS_MUT) for w in writes]
+  raises = evid.raises_deep(repo, pv, 'ModifyScopeVariableError')
+  if all(x == 'yes' for x in g) and any(f_ is pv for f_, _ in raises):
+    rn = [n for n in c.nodes if isinstance(n.stmt, ast.Raise) and astu.raised_name(n.stmt) == 'ModifyScopeVariableError']
+    R.check(any(evid.guarded(c, r_, _IS_MUT, negative=True) == 'yes' for r_ in rn), key, pv, 'put_variable must raise ModifyScopeVariableError exactly when the collection is not mutable')
+  elif not raises:
+    R.fail(key, pv, 'put_variable no longer raises ModifyScopeVariableError for an immutable collection: the write would take effect')
+  elif 'bypass' in g:
+    w = writes[g.index('bypass')]
+    R.fail(key, pv, 'put_variable reaches the write `%s` on a path that does not establish is_mutable_collection(col): %s' % (astu.short(w.stmt), evid.guard_witness(c, w, _IS_MUT)))
   else:
-    t = tests[0]
-    neg = isinstance(t.ast, ast.UnaryOp)
-    R.check(c.edge_guarded(raises[0], t, 'T' if neg else 'F') and all(c.edge_guarded(w, t, 'F' if neg else 'T') for w in writes), key_of(pv, 'immutable collection raises'), pv,
-            'put_variable must raise ModifyScopeVariableError unless is_mutable_collection(col), before touching the collection')
-  for guard in ('self._check_valid', 'self._validate_trace_level'):
-    g = [n for x in astu.func_calls(pv) if astu.call_name(x) == guard for n in c.nodes_for(x)]
-    R.check(bool(g) and all(c.dominated(w, g) for w in writes), key_of(pv, '%s before the write' % guard), pv, 'put_variable must call %s() before writing (leaked / stale scopes cannot write)' % guard)
+    R.unsure(key, pv, 'the mutability test of put_variable was moved out of the function')
+  for guard in ('_check_valid', '_validate_trace_level'):
+    g = evid.nodes_of(c, evid.find_calls(pv, guard))
+    key = key_of(pv, 'self.%s before the write' % guard)
+    if g:
+      R.check(all(c.dominated(w, g) for w in writes), key, pv, 'put_variable must call %s() before writing (leaked / stale scopes cannot write)' % guard, evidence=True)
+    elif not evid.calls_deep(repo, pv, evid.call_named(guard)):
+      R.fail(key, pv, 'put_variable no longer calls %s(): leaked / stale scopes could write' % guard)
+    else:
+      R.unsure(key, pv, '%s is called from a helper of put_variable' % guard)
   put = mod.func('Scope.put_variable.put')
   st = [n for n in astu.body_walk(put.node) if isinstance(n, ast.Subscript) and isinstance(n.ctx, ast.Store)]
-  R.check(len(st) == 1 and astu.src(st[0].value) == astu.params(put.node)[0], key_of(put, 'writes only into its target'), put, 'put must only assign into the dict it was given')
+  R.judge(len(st) >= 1, all(astu.src(x.value) == astu.params(put.node)[0] for x in st), key_of(put, 'writes only into its target'), put, 'put must only assign into the dict it was given')
   imc = mod.func('Scope.is_mutable_collection')
   ret = [n for n in astu.body_walk(imc.node) if isinstance(n, ast.Return)]
-  R.check(len(ret) == 1 and astu.src(ret[0].value) == 'in_filter(self.mutable, %s)' % astu.params(imc.node)[1], key_of(imc, 'in_filter(self.mutable, col)'), imc,
-          'is_mutable_collection must be in_filter(self.mutable, col)')
+  key = key_of(imc, 'in_filter(self.mutable, col)')
+  if len(ret) == 1 and _is_call(ret[0].value, 'in_filter'):
+    R.check([astu.src(a) for a in ret[0].value.args] == ['self.mutable', astu.params(imc.node)[1]], key, imc, 'is_mutable_collection must be in_filter(self.mutable, col), not `%s`' % astu.short(ret[0].value), evidence=True)
+  elif ret and all(isinstance(r_.value, ast.Constant) for r_ in ret):
+    R.fail(key, imc, 'is_mutable_collection returns a constant')
+  else:
+    R.unsure(key, imc, 'is_mutable_collection is not a single `return in_filter(self.mutable, col)`')
   # outside scope.py nobody writes through ._variables
   for m in repo.mods_with('._variables'):
     if m.rel == SC:
@@ -143,58 +198,108 @@ def r3(R, repo):
   mod = repo.mod(SC)
   w = mod.func('apply.wrapper')
   c = cfg_of(w)
-  withs = [n for n in c.nodes if n.kind == 'with']
-  R.require(len(withs) == 1, 'apply.wrapper: with-block not found')
+  withs = [n for n in c.nodes if n.kind == 'with' and isinstance(n.ast, ast.Call) and astu.call_tail(n.ast) == 'temporary']
+  R.require(len(withs) == 1 and withs[0].stmt.items[0].optional_vars is not None, 'apply.wrapper: `with <scope>.temporary() as root` not found')
   ctx = withs[0].ast
-  ok = isinstance(ctx, ast.Call) and astu.call_tail(ctx) == 'temporary' and _is_call(ctx.func.value, 'bind')
-  bind_call = ctx.func.value if ok else None
-  R.check(ok and astu.src(bind_call.args[0]) == astu.params(w.node)[0] and all(flow.kw_forwarded(bind_call, k) for k in ('rngs', 'mutable', 'flags')), key_of(w, 'with bind(variables, rngs, mutable, flags).temporary()'), (w, withs[0].stmt),
-          'apply must run the function on bind(variables, rngs=rngs, mutable=mutable, flags=flags).temporary()')
+  binds = [e for e in evid.expand(w, ctx.func.value) if _is_call(e, 'bind')]
+  key = key_of(w, 'with bind(variables, rngs, mutable, flags).temporary()')
+  if len(binds) == 1:
+    evid.judge_forward(R, repo, w, binds[0], [astu.params(w.node)[0], 'rngs', 'mutable', 'flags'], key, 'apply must run the function on bind(variables, rngs=rngs, mutable=mutable, flags=flags).temporary()',
+                       alias={astu.params(w.node)[0]: 'variables'}, pos={astu.params(w.node)[0]: 0})
+  else:
+    R.unsure(key, (w, withs[0].stmt), 'the scope entered by apply is not a direct bind(...) call')
   root = astu.src(withs[0].stmt.items[0].optional_vars)
   calls = [n for n in c.nodes if isinstance(n.stmt, ast.Assign) and isinstance(n.stmt.value, ast.Call) and astu.src(n.stmt.value.func) == 'fn']
   exits = [n for n in c.nodes if n.kind == 'withexit' and n.stmt is withs[0].stmt]
-  ok = len(calls) == 1 and astu.src(calls[0].stmt.value.args[0]) == root and c.dominated(calls[0], withs) and all(calls[0] not in c.reach([x]) for x in exits)
-  R.check(ok, key_of(w, 'fn(root, …) inside the with-block'), w, 'the user function must be called with the temporary root scope inside the with-block')
+  if len(calls) == 1 and calls[0].stmt.value.args:
+    ok = astu.src(calls[0].stmt.value.args[0]) == root and c.dominated(calls[0], withs) and all(calls[0] not in c.reach([x]) for x in exits)
+    R.check(ok, key_of(w, 'fn(root, …) inside the with-block'), w, 'the user function must be called with the temporary root scope inside the with-block', evidence=True)
+  else:
+    R.unsure(key_of(w, 'fn(root, …) inside the with-block'), w, 'y = fn(root, ...) not found')
   y = astu.src(calls[0].stmt.targets[0]) if calls else 'y'
   rets = [n for n in c.nodes if isinstance(n.stmt, ast.Return)]
-  tests = [n for n in c.nodes if n.kind == 'if' and astu.src(n.ast) in ('mutable is not False', 'mutable is False')]
-  ok = len(rets) == 2 and len(tests) == 1
-  if ok:
-    pos = 'T' if 'not' in astu.src(tests[0].ast) else 'F'
-    for r_ in rets:
-      if c.edge_guarded(r_, tests[0], pos):
-        ok = ok and astu.src(r_.stmt.value) == '(%s, %s.mutable_variables())' % (y, root)
-      else:
-        ok = ok and astu.src(r_.stmt.value) == y
-  R.check(ok, key_of(w, 'returns (y, mutable_variables()) iff mutable is not False'), w,
-          'apply must return (y, root.mutable_variables()) exactly when mutable is not False, else y')
+  tests = [n for n in c.nodes if n.kind == 'if' and 'mutable' in astu.names_loaded(n.ast)]
+  key = key_of(w, 'returns (y, mutable_variables()) iff mutable is not False')
+  try:
+    truth = {v: _abs_truth(tests[0].ast, 'mutable', v) for v in ABS} if len(tests) == 1 else None
+  except AnalysisError:
+    truth = None
+  if truth is None or not rets or any(r_.stmt.value is None for r_ in rets):
+    R.unsure(key, w, 'the return statement(s) of apply.wrapper / the test on `mutable` were not recognised')
+  else:
+    def shape(e):
+      if isinstance(e, ast.Tuple) and len(e.elts) == 2 and astu.src(e.elts[0]) == y and astu.src(e.elts[1]) == '%s.mutable_variables()' % root:
+        return 'pair'
+      return 'y' if astu.src(e) == y else 'other'
+    bad = None
+    for v in ABS:
+      lab = 'T' if truth[v] else 'F'
+      edge = [(tests[0], m, l) for m, l in c.succ[tests[0]] if l != lab]
+      reach = c.reach([c.entry], avoid_edges=edge)
+      got = {shape(r_.stmt.value) for r_ in rets if r_ in reach}
+      want = 'y' if v == 'False' else 'pair'
+      if got != {want}:
+        bad = (v, got, want)
+        break
+    if bad is None:
+      R.ok(key, w)
+    elif 'other' in bad[1]:
+      R.unsure(key, w, 'return value of apply.wrapper not recognised')
+    else:
+      R.fail(key, (w, tests[0].stmt), 'for mutable=%s apply returns %s but must return %s (`if %s`)' % (
+          {'False': 'False', 'True': 'True', 'Empty': 'an empty filter such as []', 'NonEmpty': 'a collection name / list'}[bad[0]],
+          sorted(bad[1]), {'y': 'y alone', 'pair': '(y, root.mutable_variables())'}[bad[2]], astu.src(tests[0].ast)))
   t = mod.func('Scope.temporary')
   tr = [n for n in astu.body_walk(t.node) if isinstance(n, ast.Try)]
-  ok = len(tr) == 1 and any('self.invalidate()' in astu.src(s) for s in tr[0].finalbody) and 'contextlib.contextmanager' in astu.decorator_names(t.node)
-  R.check(ok, key_of(t, 'invalidates in finally'), t, 'Scope.temporary must invalidate the scope in a finally block')
+  key = key_of(t, 'invalidates in finally')
+  inv = evid.find_calls(t, 'invalidate')
+  if not inv:
+    R.fail(key, t, 'Scope.temporary no longer invalidates the scope: a leaked root scope stays writable after apply returned')
+  else:
+    fin = [x for tr_ in tr for s_ in tr_.finalbody for x in ast.walk(s_)]
+    ys = [n for n in astu.body_walk(t.node) if isinstance(n, (ast.Yield, ast.YieldFrom))]
+    R.judge(bool(ys) and len(tr) >= 1, all(any(x is i for x in fin) for i in inv) and 'contextlib.contextmanager' in astu.decorator_names(t.node), key, t, 'Scope.temporary must invalidate the scope in a finally block around the yield')
   mv = mod.func('Scope.mutable_variables')
   comps = [n for n in astu.body_walk(mv.node) if isinstance(n, ast.DictComp)]
-  ok = len(comps) == 1 and astu.src(comps[0].generators[0].iter) == 'self._variables.items()' and len(comps[0].generators[0].ifs) == 1
-  if ok:
-    k = astu.src(comps[0].generators[0].target.elts[0])
-    ok = astu.src(comps[0].generators[0].ifs[0]) == 'in_filter(self.mutable, %s)' % k and astu.src(comps[0].key) == k and \
-        astu.src(comps[0].value) == astu.src(comps[0].generators[0].target.elts[1])
-  pop = [x for x in astu.func_calls(mv) if astu.call_name(x) == 'self._populate_collections']
-  R.check(ok and len(pop) == 1, key_of(mv, 'every collection matching self.mutable and no other'), mv,
-          'mutable_variables must return {k: v for every collection k with in_filter(self.mutable, k)}')
+  key = key_of(mv, 'every collection matching self.mutable and no other')
+  if len(comps) == 1 and astu.src(comps[0].generators[0].iter) == 'self._variables.items()' and isinstance(comps[0].generators[0].target, ast.Tuple):
+    g = comps[0].generators[0]
+    k = astu.src(g.target.elts[0])
+    if not g.ifs:
+      R.fail(key, (mv, comps[0]), 'mutable_variables returns every collection: the in_filter(self.mutable, k) condition is gone')
+    elif len(g.ifs) == 1 and _is_call(g.ifs[0], 'in_filter'):
+      ok = astu.src(g.ifs[0]) == 'in_filter(self.mutable, %s)' % k and astu.src(comps[0].key) == k and astu.src(comps[0].value) == astu.src(g.target.elts[1])
+      R.check(ok, key, (mv, comps[0]), 'mutable_variables must return {k: v for every collection k with in_filter(self.mutable, k)}, not `%s`' % astu.short(comps[0]), evidence=True)
+    else:
+      R.unsure(key, (mv, comps[0]), 'filter condition of mutable_variables not recognised')
+    pop = evid.find_calls(mv, '_populate_collections')
+    R.check(len(pop) >= 1, key_of(mv, 'collections populated first'), mv, 'mutable_variables must call self._populate_collections() so that lazily created child collections are included', evidence=True)
+  else:
+    R.unsure(key, mv, 'mutable_variables is not a dict comprehension over self._variables.items()')
   # core.init -> apply with flags / rngs
   iw = mod.func('init.wrapper')
   ac = [x for x in astu.func_calls(iw) if astu.call_name(x) == 'apply']
-  ok = len(ac) == 1 and flow.kw_forwarded(ac[0], 'mutable') and astu.src(ac[0].args[0]) == 'fn'
-  outer = [x for x in astu.func_calls(iw) if isinstance(x.func, ast.Call) and x.func is ac[0]] if ac else []
-  ok = ok and len(outer) == 1 and astu.src(outer[0].args[0]) == '{}' and flow.kw_forwarded(outer[0], 'rngs')
-  R.check(ok, key_of(iw, 'init = apply(fn, mutable)({}, …, rngs=rngs)'), iw, 'core.init must be apply(fn, mutable=mutable, flags=…)({}, *args, rngs=rngs, **kwargs)')
+  key = key_of(iw, 'init = apply(fn, mutable)({}, …, rngs=rngs)')
+  if len(ac) == 1:
+    evid.judge_forward(R, repo, iw, ac[0], ['fn', 'mutable'], key, 'core.init must be apply(fn, mutable=mutable, flags=…)', pos={'fn': 0, 'mutable': 1})
+    outer = [x for x in astu.func_calls(iw) if isinstance(x.func, ast.Call) and x.func is ac[0]]
+    if len(outer) == 1:
+      evid.judge_forward(R, repo, iw, outer[0], ['rngs'], key, 'core.init must pass rngs on to the apply wrapper')
+      a0 = outer[0].args[0] if outer[0].args else None
+      R.judge(a0 is not None and not isinstance(a0, ast.Starred), isinstance(a0, ast.Dict) and not a0.keys, key + ' :: empty variables', (iw, outer[0]), 'core.init must start from empty variables `{}`')
+    else:
+      R.unsure(key + ' :: call', iw, 'apply(...)(...) call shape not recognised')
+  else:
+    R.unsure(key, iw, 'apply(...) call in init.wrapper not found')
+
+
+ABS = ('False', 'True', 'Empty', 'NonEmpty')
 
 
 def _abs_truth(expr, name, val):
-  """Truth of `expr` when variable `name` holds abstract value val in {'False','True','EmptyMapping','Mapping'}."""
+  """Truth of `expr` when variable `name` holds abstract value val in ABS (False, True, an empty container, a non-empty one)."""
   if isinstance(expr, ast.Name) and expr.id == name:
-    return {'False': False, 'True': True, 'EmptyMapping': False, 'Mapping': True}[val]
+    return {'False': False, 'True': True, 'Empty': False, 'NonEmpty': True}[val]
   if isinstance(expr, ast.UnaryOp) and isinstance(expr.op, ast.Not):
     return not _abs_truth(expr.operand, name, val)
   if isinstance(expr, ast.BoolOp):
@@ -213,7 +318,33 @@ def _abs_truth(expr, name, val):
     t = astu.src(expr.args[1])
     if t == 'bool':
       return val in ('False', 'True')
-  raise AnalysisError('deep-clone test `%s` is outside the analysable fragment' % astu.src(expr))
+  raise AnalysisError('test `%s` is outside the analysable fragment' % astu.src(expr))
+
+
+def _deep_clone_call(R, f, expr, parent_name, key, where, msg):
+  """expr must be (a name bound to) `<module>.clone(parent=<parent_name>, _deep_clone=True)`."""
+  exprs = evid.expand(f, expr)
+  clones = [e for e in exprs if isinstance(e, ast.Call) and astu.call_tail(e) == 'clone']
+  if clones:
+    for cl in clones:
+      dc, pa = astu.kwarg(cl, '_deep_clone'), astu.kwarg(cl, 'parent')
+      if astu.has_star_kwargs(cl):
+        R.unsure(key, where, 'clone(**kwargs): cannot tell whether _deep_clone=True is passed')
+      elif dc is None or (isinstance(dc, ast.Constant) and dc.value is not True):
+        R.fail(key, where, '%s; `%s` is a shallow clone: submodules (and their scope/_state bookkeeping) stay shared with the caller\'s module' % (msg, astu.short(cl)))
+      elif pa is None or isinstance(pa, ast.Constant):
+        R.fail(key, where, '%s; `%s` does not bind the clone to `%s`' % (msg, astu.short(cl), parent_name))
+      elif astu.is_const(dc, True) and astu.src(pa) == parent_name:
+        R.ok(key, where)
+      else:
+        R.unsure(key, where, 'arguments of `%s` not recognised' % astu.short(cl))
+    return
+  if isinstance(expr, ast.Name) and not [d for d in flow.defs(f, expr.id)]:
+    R.fail(key, where, '%s; passing `%s` (the caller\'s instance) would bind scope/_state onto the caller\'s module' % (msg, expr.id))
+  elif isinstance(expr, ast.Name) and expr.id == 'self':
+    R.fail(key, where, '%s; `self` is the caller\'s instance' % msg)
+  else:
+    R.unsure(key, where, 'cannot tell whether `%s` is a deep clone' % astu.short(expr))
 
 
 @rule('C01.R4', 'K7', 7, 'user functions run on a deep clone of the module, never on the caller\'s instance')
@@ -222,26 +353,41 @@ def r4(R, repo):
   for q in ('apply.scope_fn', 'init_with_output.scope_fn'):
     f = mod.func(q)
     calls = [x for x in astu.func_calls(f) if astu.src(x.func) == 'fn']
-    R.require(len(calls) == 1, '%s: fn(...) call not found' % q)
-    a0 = calls[0].args[0] if calls[0].args else None
-    ok = isinstance(a0, ast.Call) and astu.src(a0.func) == 'module.clone' and astu.src(astu.kwarg(a0, 'parent')) == astu.params(f.node)[0] and astu.is_const(astu.kwarg(a0, '_deep_clone'), True)
-    R.check(ok, key_of(f, 'fn(module.clone(parent=scope, _deep_clone=True), …)'), (f, calls[0]),
-            'the user function must receive module.clone(parent=scope, _deep_clone=True); passing `%s` would bind scope/_state onto the caller\'s module' % astu.short(a0))
+    R.require(len(calls) == 1 and calls[0].args and not isinstance(calls[0].args[0], ast.Starred), '%s: fn(<module>, ...) call not found' % q)
+    _deep_clone_call(R, f, calls[0].args[0], astu.params(f.node)[0], key_of(f, 'fn(module.clone(parent=scope, _deep_clone=True), …)'), (f, calls[0]),
+                     'the user function must receive module.clone(parent=scope, _deep_clone=True)')
     tr = [n for n in astu.body_walk(f.node) if isinstance(n, ast.Try)]
-    ok = len(tr) == 1 and any('capture_stack.pop()' in astu.src(s) for s in tr[0].finalbody) and any('capture_stack.append(capture_intermediates)' in astu.src(s) for s in f.node.body)
-    R.check(ok, key_of(f, 'capture stack push/pop paired in finally'), f, 'the capture filter must be pushed before and popped in a finally after the call')
+    push = [x for x in astu.func_calls(f) if astu.src(x.func).endswith('capture_stack.append')]
+    pop = [x for x in astu.func_calls(f) if astu.src(x.func).endswith('capture_stack.pop')]
+    key = key_of(f, 'capture stack push/pop paired in finally')
+    if push and not pop:
+      R.fail(key, f, 'the capture filter is pushed but never popped: it would leak into later, unrelated apply calls')
+    elif push and pop and tr:
+      fin = [x for t_ in tr for s_ in t_.finalbody for x in ast.walk(s_)]
+      body = [x for t_ in tr for s_ in t_.body for x in ast.walk(s_)]
+      ok = all(any(x is p_ for x in fin) for p_ in pop) and any(x is calls[0] for x in body) and not any(x is p_ for x in body + fin for p_ in push)
+      R.check(ok, key, f, 'the capture filter must be pushed before the try and popped in its finally block (an exception in the user function would otherwise leave it on the stack)', evidence=True)
+    else:
+      R.unsure(key, f, 'capture_stack push/pop not recognised')
   b = mod.func('Module.bind')
-  rets = [n for n in astu.body_walk(b.node) if isinstance(n, ast.Return)]
-  ok = len(rets) == 1 and isinstance(rets[0].value, ast.Call) and astu.src(rets[0].value.func) == 'self.clone' and astu.is_const(astu.kwarg(rets[0].value, '_deep_clone'), True) and \
-      astu.src(astu.kwarg(rets[0].value, 'parent')) == 'scope'
-  R.check(ok, key_of(b, 'returns self.clone(parent=scope, _deep_clone=True)'), b, 'Module.bind must return a deep clone bound to the new scope')
+  rets = [n for n in astu.body_walk(b.node) if isinstance(n, ast.Return) and n.value is not None]
+  R.require(len(rets) >= 1, 'Module.bind: return not found')
+  scope_names = [t.id for n in astu.body_walk(b.node) if isinstance(n, ast.Assign) and isinstance(n.value, ast.Call) and astu.call_tail(n.value) == 'bind' for t in n.targets if isinstance(t, ast.Name)]
+  for r_ in rets:
+    _deep_clone_call(R, b, r_.value, scope_names[0] if scope_names else 'scope', key_of(b, 'returns self.clone(parent=scope, _deep_clone=True)'), (b, r_), 'Module.bind must return a deep clone bound to the new scope')
   cl = mod.func('Module.clone')
   c = cfg_of(cl)
   tests = [n for n in c.nodes if n.kind == 'if' and '_deep_clone' in astu.names_loaded(n.ast)]
   R.require(len(tests) == 1, 'Module.clone: deep-clone test not found')
-  vals = {v: _abs_truth(tests[0].ast, '_deep_clone', v) for v in ('False', 'True', 'EmptyMapping', 'Mapping')}
-  R.check(vals == {'False': False, 'True': True, 'EmptyMapping': True, 'Mapping': True}, key_of(cl, 'deep clone for True and for any cache mapping, including an empty one'), (cl, tests[0].stmt),
-          '`if %s:` evaluates to %s; the recursive call passes a (possibly still empty) WeakValueDictionary as _deep_clone, which must count as "deep clone"' % (astu.src(tests[0].ast), vals))
+  key = key_of(cl, 'deep clone for True and for any cache mapping, including an empty one')
+  try:
+    vals = {v: _abs_truth(tests[0].ast, '_deep_clone', v) for v in ABS}
+  except AnalysisError as e:
+    vals = None
+    R.unsure(key, (cl, tests[0].stmt), str(e))
+  if vals is not None:
+    R.check(vals == {'False': False, 'True': True, 'Empty': True, 'NonEmpty': True}, key, (cl, tests[0].stmt),
+            '`if %s:` evaluates to %s; the recursive call passes a (possibly still empty) WeakValueDictionary as _deep_clone, which must count as "deep clone"' % (astu.src(tests[0].ast), vals), evidence=True)
   maps = [n for n in c.nodes if isinstance(n.stmt, ast.Assign) and isinstance(n.stmt.value, ast.Call) and astu.call_name(n.stmt.value) == '_map_submodules']
   ok = len(maps) == 1 and c.edge_guarded(maps[0], tests[0], 'T') and astu.src(maps[0].stmt.value.args[0]) == 'clone_fn' and isinstance(maps[0].stmt.targets[0], ast.Subscript) and astu.src(maps[0].stmt.targets[0].value) == 'attrs'
   loop = [n for n in c.nodes if n.kind == 'for' and astu.src(n.ast) == 'attrs.items()']
@@ -249,13 +395,24 @@ def r4(R, repo):
   ok = ok and len(loop) == 1 and maps[0] in c.loop_body_nodes(loop[0].stmt) and len(skip) == 1
   R.check(ok, key_of(cl, 'every non-parent attribute mapped through clone_fn'), cl, 'in deep-clone mode every attribute except `parent` must pass through _map_submodules(clone_fn, value)')
   cf = mod.func('Module.clone.clone_fn')
-  rec = [x for x in astu.func_calls(cf) if astu.src(x.func) == 'm.clone']
-  ok = len(rec) >= 1 and all(astu.src(astu.kwarg(x, '_deep_clone')) == 'cache' for x in rec)
+  rec = [x for x in astu.func_calls(cf) if astu.call_tail(x) == 'clone']
+  key = key_of(cf, 'recursive clones share the cache (sharing-by-reference preserved)')
+  cache_names = [d for d in ('cache',) if flow.defs(cl, d)]
+  if not rec:
+    R.unsure(key, cf, 'recursive clone call not found in clone_fn')
+  else:
+    for x in rec:
+      dc = astu.kwarg(x, '_deep_clone')
+      if dc is None or isinstance(dc, ast.Constant):
+        R.fail(key, (cf, x), '`%s` does not pass the clone cache on: a submodule reachable twice would be cloned twice (sharing lost) or not deep-cloned at all' % astu.short(x))
+      elif cache_names and astu.src(dc) == cache_names[0]:
+        R.ok(key, (cf, x))
+      else:
+        R.unsure(key, (cf, x), '_deep_clone argument `%s` not recognised' % astu.short(dc))
   cc = cfg_of(cf)
   st = [n for n in cc.nodes if isinstance(n.stmt, ast.Assign) and astu.src(n.stmt.targets[0]) == 'cache[key]']
   hit = [n for n in cc.nodes if isinstance(n.stmt, ast.Return) and astu.src(n.stmt.value) == 'cache[key]']
-  ok = ok and len(st) == 1 and len(hit) == 1
-  R.check(ok, key_of(cf, 'recursive clones share the cache (sharing-by-reference preserved)'), cf, 'clone_fn must clone recursively with _deep_clone=cache, store the clone under the submodule id and return cached clones')
+  R.check(len(st) == 1 and len(hit) == 1, key_of(cf, 'clone stored in and served from the cache'), cf, 'clone_fn must store the clone under the submodule id and return cached clones')
   ctor = [n for n in c.nodes if isinstance(n.stmt, ast.Assign) and astu.src(n.stmt.value) == 'self.__class__(**attrs)']
   R.check(len(ctor) == 1 and all(c.dominated(ctor[0], [t]) for t in tests), key_of(cl, 'new instance built from the (cloned) attrs'), cl, 'clone must construct a new instance from attrs')
 
@@ -292,27 +449,45 @@ def r5(R, repo):
           attr = astu.const_str(x.args[1]) or '<name>'
           key = key_of(f, 'object.__setattr__(%s, %r)' % (recv, attr))
           ok = any(r_ == rel and rc == recv and at == attr and (q == qq or q.startswith(qq + '.')) for (r_, qq, rc, at) in SETATTR_TABLE)
-          R.check(ok, key, (f, x), 'object.__setattr__(%s, %r, …) in %s bypasses the frozen-module check and is not in the table of reviewed sites '
-                  '(post_init of self / fresh clone / adopted submodule); a write onto a caller-owned module breaks purity' % (recv, attr, q))
+          if ok:
+            R.ok(key, (f, x))
+          elif isinstance(x.args[0], ast.Name) and flow.defs(f, recv) and all(isinstance(d[0], ast.Call) and astu.call_tail(d[0]) in ('clone', 'clean_clone') for d in flow.defs(f, recv)):
+            R.ok(key, (f, x), 'receiver is a clone made in this function')
+          elif recv == 'self' and attr != '<name>':
+            R.fail(key, (f, x), 'object.__setattr__(self, %r, …) in %s bypasses the frozen-module check on the instance the caller owns and is not one of the reviewed construction-time sites' % (attr, q))
+          else:
+            R.unsure(key, (f, x), 'object.__setattr__(%s, %r, …) in %s is not in the table of reviewed sites; cannot tell who owns `%s`' % (recv, attr, q, recv))
   R.require(n_sites >= 15, 'expected >= 15 object.__setattr__ sites')
   mod = repo.mod(MO)
   sa = mod.func('Module.__setattr__')
   c = cfg_of(sa)
+  name_p = astu.params(sa.node)[1]
   raises = [n for n in c.nodes if isinstance(n.stmt, ast.Raise) and astu.raised_name(n.stmt) == 'SetAttributeFrozenModuleError']
-  t_setup = [n for n in c.nodes if n.kind == 'if' and astu.src(n.ast) == 'not self._state.in_setup']
-  t_init = [n for n in c.nodes if n.kind == 'if' and astu.src(n.ast) == 'not self._state.is_initialized']
-  t_dunder = [n for n in c.nodes if n.kind == 'if' and astu.src(n.ast) == "name.startswith('__')"]
-  if not raises:
-    R.fail(key_of(sa, 'raises on initialised module'), sa, 'Module.__setattr__ no longer raises SetAttributeFrozenModuleError')
+  p_setup = lambda e: astu.src(e) == 'self._state.in_setup'
+  p_init = lambda e: astu.src(e) == 'self._state.is_initialized'
+  p_dunder = lambda e: isinstance(e, ast.Call) and astu.call_tail(e) == 'startswith' and astu.src(e.func.value) == name_p and e.args and astu.const_str(e.args[0]) == '__'
+  key = key_of(sa, 'raises on initialised module')
+  if not raises and not evid.raises_deep(repo, sa, 'SetAttributeFrozenModuleError'):
+    R.fail(key, sa, 'Module.__setattr__ no longer raises SetAttributeFrozenModuleError')
+  elif not raises:
+    R.unsure(key, sa, 'SetAttributeFrozenModuleError is raised from a helper')
   else:
-    R.require(len(t_setup) == 1 and len(t_init) == 1 and len(t_dunder) == 1, 'Module.__setattr__: state tests not found')
+    tests_ast = [n.ast for n in c.nodes if n.kind == 'if' and n.ast is not None]
+    found = all(any(evid.mentions(t, p) for t in tests_ast) for p in (p_setup, p_init, p_dunder))
     # with in_setup false, is_initialized true, non-dunder name: every path reaches the raise (no store first)
-    cut = [(t_setup[0], m, l) for m, l in c.succ[t_setup[0]] if l != 'T'] + [(t_init[0], m, l) for m, l in c.succ[t_init[0]] if l != 'F'] + \
-        [(t_dunder[0], m, l) for m, l in c.succ[t_dunder[0]] if l != 'F']
-    sets = [n for x in astu.func_calls(sa) if astu.call_name(x) in ('object.__setattr__', 'self._register_submodules') for n in c.nodes_for(x)]
+    cut = evid.est_edges(c, p_setup) + evid.est_edges(c, p_init, negative=True) + evid.est_edges(c, p_dunder)
+    sets = evid.nodes_of(c, evid.find_calls(sa, '__setattr__', '_register_submodules', 'setattr'))
     reach = c.reach([c.entry], avoid_edges=cut)
-    ok = raises[0] in reach and not any(s in reach for s in sets) and c.exit not in reach
-    R.check(ok, key_of(sa, 'raises on initialised module'), sa, 'for an initialised module outside setup and a non-dunder name, __setattr__ must raise before any attribute is set')
+    ok = any(r_ in reach for r_ in raises) and not any(s_ in reach for s_ in sets) and c.exit not in reach
+    if ok:
+      R.ok(key, sa)
+    else:
+      # only a path on which every test is one of the three recognised ones is positive evidence
+      other = [(n, m, l) for n in c.nodes if n.kind in ('if', 'while') and not any(evid.mentions(n.ast, p) for p in (p_setup, p_init, p_dunder)) for m, l in c.succ[n]]
+      reach2 = c.reach([c.entry], avoid_edges=cut + other)
+      hit = [s_ for s_ in sets if s_ in reach2] + ([c.exit] if c.exit in reach2 else [])
+      R.judge(found and bool(hit), False, key, sa, 'for an initialised module outside setup and a non-dunder name, __setattr__ must raise before any attribute is set: %s' % (
+          c.witness(c.entry, hit[0], avoid_edges=cut + other) if hit else ''))
 
 
 @rule('C01.R6', 'K1+K7', 5, 'sow, capture_intermediates and perturb never change the primary output')
@@ -322,46 +497,53 @@ def r6(R, repo):
   R.require(len(sow) == 1, 'Module.sow implementation not found')
   sow = sow[0]
   c = cfg_of(sow)
-  tests = [n for n in c.nodes if n.kind == 'if' and 'is_mutable_collection' in astu.src(n.ast)]
-  effects = [n for x in astu.func_calls(sow) if astu.call_name(x) in ('self.scope.put_variable', 'self.scope.reserve') for n in c.nodes_for(x)]
+  effects = evid.nodes_of(c, evid.find_calls(sow, 'put_variable', 'reserve'))
   effects += [n for n in c.nodes if isinstance(n.stmt, ast.Assign) and 'self._state.children' in astu.src(n.stmt.targets[0])]
   R.require(effects, 'Module.sow: put_variable / reserve not found')
-  if not tests:
-    R.fail(key_of(sow, 'no effect on an immutable collection'), sow, 'Module.sow no longer tests is_mutable_collection(col): sowing into an immutable collection would raise or write')
-  else:
-    neg = isinstance(tests[0].ast, ast.UnaryOp)
-    rets = [n for n in c.nodes if isinstance(n.stmt, ast.Return) and astu.is_const(n.stmt.value, False)]
-    ok = len(rets) == 1 and c.edge_guarded(rets[0], tests[0], 'T' if neg else 'F') and all(c.edge_guarded(e, tests[0], 'F' if neg else 'T') for e in effects)
-    R.check(ok, key_of(sow, 'no effect on an immutable collection'), sow, 'sow must return False for an immutable collection before reserving or writing anything')
+  evid.judge_guard(R, c, effects, _IS_MUT, key_of(sow, 'no effect on an immutable collection'), sow, 'sow must return False for an immutable collection before reserving or writing anything')
   vals = [n.value for n in astu.body_walk(sow.node) if isinstance(n, ast.Return)]
-  R.check(all(isinstance(v, ast.Constant) and isinstance(v.value, bool) for v in vals), key_of(sow, 'returns only True/False'), sow, 'sow must return only a success flag, never a value derived from the sown value')
+  vname = astu.params(sow.node)[3]
+  key = key_of(sow, 'returns only True/False')
+  if all(isinstance(v, ast.Constant) and isinstance(v.value, bool) for v in vals):
+    R.ok(key, sow)
+  elif any(v is not None and evid.raw3(sow, v, vname) == evid.RAW for v in vals):
+    R.fail(key, sow, 'sow returns (something holding) the sown value; it must return only a success flag')
+  else:
+    R.unsure(key, sow, 'return values of sow not recognised')
   cw = mod.func('Module._call_wrapped_method')
-  ydefs = flow.defs(cw, 'y')
-  ok = len(ydefs) >= 1 and all(isinstance(d[0], ast.Call) and astu.src(d[0].func) == 'run_fun' for d in ydefs)
-  sows = [x for x in astu.func_calls(cw) if astu.src(x.func) == 'self.sow']
-  ok = ok and len(sows) == 1 and isinstance(astu.parent(sows[0]), ast.Expr) and astu.const_str(sows[0].args[0]) == 'intermediates' and astu.src(sows[0].args[2]) == 'y'
-  rets = [n for n in astu.body_walk(cw.node) if isinstance(n, ast.Return)]
-  ok = ok and len(rets) == 1 and astu.src(rets[0].value) == 'y'
-  R.check(ok, key_of(cw, 'capture_intermediates only observes y'), cw,
-          '_call_wrapped_method must return the method result `y` unchanged; the sow of intermediates may not rebind it')
+  rets = [n for n in astu.body_walk(cw.node) if isinstance(n, ast.Return) and n.value is not None]
+  key = key_of(cw, 'capture_intermediates only observes y')
+  if len(rets) == 1 and isinstance(rets[0].value, ast.Name):
+    y = rets[0].value.id
+    ydefs = [d for d in flow.defs(cw, y)]
+    run = [d for d in ydefs if isinstance(d[0], ast.Call) and astu.src(d[0].func) in ('run_fun', 'fun')]
+    other = [d for d in ydefs if d not in run]
+    sows = evid.find_calls(cw, 'sow')
+    if any(isinstance(d[0], ast.AST) and any(isinstance(x, ast.Call) and astu.call_tail(x) == 'sow' for x in ast.walk(d[0])) for d in other):
+      R.fail(key, (cw, other[0][1]), '_call_wrapped_method rebinds the method result `%s` from the sow of intermediates: capture_intermediates would change the output' % y)
+    elif run and not other and all(isinstance(astu.parent(x), ast.Expr) for x in sows):
+      R.ok(key, cw)
+    else:
+      R.unsure(key, cw, 'definitions of the returned value not recognised')
+  else:
+    R.unsure(key, cw, '_call_wrapped_method does not end in a single `return y`')
   pt = mod.func('Module.perturb')
   c = cfg_of(pt)
   vp, cp = astu.params(pt.node)[2], astu.params(pt.node)[3]
-  tests = [n for n in c.nodes if n.kind == 'if' and astu.src(n.ast) == '%s in self.scope.root._variables' % cp]
+  present = lambda e: isinstance(e, ast.Compare) and len(e.ops) == 1 and isinstance(e.ops[0], ast.In) and astu.src(e.left) == cp and '_variables' in astu.src(e.comparators[0])
   rebinds = [n for n in c.nodes if isinstance(n.stmt, ast.Assign) and astu.src(n.stmt.targets[0]) == vp]
   rets = [n for n in c.nodes if isinstance(n.stmt, ast.Return)]
-  ok = len(tests) == 1 and all(c.edge_guarded(r_, tests[0], 'T') for r_ in rebinds) and len(rets) == 1 and astu.src(rets[0].stmt.value) == vp
-  R.check(ok, key_of(pt, 'value returned unchanged when the collection is absent'), pt,
-          'perturb may modify `value` only when the perturbation collection is present in the variables; otherwise it must return its argument unchanged')
-  puts = [n for x in astu.func_calls(pt) if astu.call_name(x) in ('self.scope.put_variable', 'self.scope.reserve') for n in c.nodes_for(x)]
-  mt = [n for n in c.nodes if n.kind == 'if' and 'is_mutable_collection' in astu.src(n.ast)]
-  R.check(bool(puts) and len(mt) == 1 and all(c.edge_guarded(p_, mt[0], 'T') for p_ in puts), key_of(pt, 'writes only when the collection is mutable'), pt,
-          'perturb may create its variable only when the collection is mutable')
+  key = key_of(pt, 'value returned unchanged when the collection is absent')
+  if rebinds and len(rets) == 1 and astu.src(rets[0].stmt.value) == vp:
+    evid.judge_guard(R, c, rebinds, present, key, pt, 'perturb may modify `value` only when the perturbation collection is present in the variables')
+  else:
+    R.unsure(key, pt, 'perturb: rebinding of `value` / single `return value` not found')
+  puts = evid.nodes_of(c, evid.find_calls(pt, 'put_variable', 'reserve'))
+  evid.judge_guard(R, c, puts, _IS_MUT, key_of(pt, 'writes only when the collection is mutable'), pt, 'perturb may create its variable only when the collection is mutable')
 
 
-def _fwd(R, f, call, names, what):
-  missing = [n for n in names if not flow.kw_forwarded(call, n)]
-  R.check(not missing, key_of(f, what), (f, call), '%s does not forward %s unchanged to `%s`' % (f.qual, missing, astu.short(call.func)))
+def _fwd(R, repo, f, call, names, what, pos=None):
+  evid.judge_forward(R, repo, f, call, names, key_of(f, what), '%s does not forward its options unchanged' % f.qual, pos=pos)
 
 
 @rule('C01.R7', 'K6', 6, 'mutable / capture_intermediates / method / rngs reach the functional core unchanged')
@@ -370,35 +552,50 @@ def r7(R, repo):
   ma = mod.func('Module.apply')
   calls = [x for x in astu.func_calls(ma) if astu.call_name(x) == 'apply']
   R.require(len(calls) == 1, 'Module.apply: apply(...) not found')
-  _fwd(R, ma, calls[0], ['mutable', 'capture_intermediates'], 'forwards mutable, capture_intermediates')
+  _fwd(R, repo, ma, calls[0], ['method', 'self', 'mutable', 'capture_intermediates'], 'apply(method, self, mutable, capture_intermediates)', pos={'method': 0, 'self': 1})
   outer = [x for x in astu.func_calls(ma) if x.func is calls[0]]
-  ok = len(outer) == 1 and astu.src(outer[0].args[0]) == 'variables' and flow.kw_forwarded(outer[0], 'rngs') and astu.src(calls[0].args[1]) == 'self'
-  R.check(ok, key_of(ma, 'apply(method, self, …)(variables, *args, rngs=rngs, **kwargs)'), ma, 'Module.apply must call apply(method, self, …)(variables, *args, **kwargs, rngs=rngs)')
+  if len(outer) == 1:
+    _fwd(R, repo, ma, outer[0], ['variables', 'rngs'], 'apply(…)(variables, *args, rngs=rngs, **kwargs)', pos={'variables': 0})
+  else:
+    R.unsure(key_of(ma, 'apply(…)(variables, *args, rngs=rngs, **kwargs)'), ma, 'apply(...)(...) call shape not recognised')
+  is_cap = lambda e: isinstance(e, ast.Name) and e.id == 'capture_intermediates'
   for q, core_name in (('apply', 'core.apply'), ('init_with_output', 'core.init')):
     f = mod.func(q)
     cc = [x for x in astu.func_calls(f) if astu.call_name(x) == core_name]
     R.require(len(cc) == 1, '%s: %s(...) not found' % (q, core_name))
-    ok = astu.src(cc[0].args[0]) == 'scope_fn' and flow.kw_forwarded(cc[0], 'mutable')
+    _fwd(R, repo, f, cc[0], ['scope_fn', 'mutable'], '%s(scope_fn, mutable=mutable)' % core_name, pos={'scope_fn': 0, 'mutable': 1})
     widen = [d for d in flow.defs(f, 'mutable') if not (isinstance(d[0], tuple))]
     c = cfg_of(f)
-    okw = len(widen) == 1 and astu.src(widen[0][0]) == "union_filters(mutable, 'intermediates')"
-    if okw:
-      t = [n for n in c.nodes if n.kind == 'if' and astu.src(n.ast) == 'capture_intermediates']
-      okw = len(t) == 1 and all(c.edge_guarded(x, t[0], 'T') for x in c.nodes_of_stmt(widen[0][1]))
-    R.check(ok and okw, key_of(f, 'mutable reaches %s, widened only by intermediates under capture_intermediates' % core_name), f,
-            '%s must pass `mutable` to %s, widened only with union_filters(mutable, \'intermediates\') when capture_intermediates is set' % (q, core_name))
+    key = key_of(f, 'mutable reaches %s, widened only by intermediates under capture_intermediates' % core_name)
+    for d in widen:
+      e = d[0]
+      if isinstance(e, ast.Call) and astu.call_tail(e) == 'union_filters' and len(e.args) == 2:
+        ok = astu.src(e.args[0]) == 'mutable' and astu.const_str(e.args[1]) == 'intermediates'
+        if not ok:
+          R.fail(key, (f, d[1]), '`%s` widens `mutable` by something other than \'intermediates\'' % astu.short(d[1]))
+        else:
+          evid.judge_guard(R, c, c.nodes_of_stmt(d[1]), is_cap, key, (f, d[1]), 'mutable may be widened with \'intermediates\' only when capture_intermediates is set')
+      elif isinstance(e, ast.Constant):
+        R.fail(key, (f, d[1]), '`%s` overrides the caller\'s `mutable`' % astu.short(d[1]))
+      else:
+        R.unsure(key, (f, d[1]), 'rebinding `%s` of mutable not recognised' % astu.short(d[1]))
+    if not widen:
+      R.ok(key, f, 'mutable is never rebound')
   mi = mod.func('Module.init_with_output')
   calls = [x for x in astu.func_calls(mi) if astu.call_name(x) == 'init_with_output']
   R.require(len(calls) == 1, 'Module.init_with_output: init_with_output(...) not found')
-  _fwd(R, mi, calls[0], ['mutable', 'capture_intermediates'], 'forwards mutable, capture_intermediates')
+  _fwd(R, repo, mi, calls[0], ['method', 'self', 'mutable', 'capture_intermediates'], 'init_with_output(method, self, mutable, capture_intermediates)', pos={'method': 0, 'self': 1})
   m2 = mod.func('Module.init')
   calls = [x for x in astu.func_calls(m2) if astu.src(x.func) == 'self.init_with_output']
   R.require(len(calls) == 1, 'Module.init: self.init_with_output(...) not found')
-  _fwd(R, m2, calls[0], ['method', 'mutable', 'capture_intermediates'], 'forwards method, mutable, capture_intermediates')
+  _fwd(R, repo, m2, calls[0], ['rngs', 'method', 'mutable', 'capture_intermediates'], 'self.init_with_output(rngs, method, mutable, capture_intermediates)', pos={'rngs': 0})
   rets = [n for n in astu.body_walk(m2.node) if isinstance(n, ast.Return)]
   unp = [n for n in astu.body_walk(m2.node) if isinstance(n, ast.Assign) and n.value is calls[0]]
-  ok = len(unp) == 1 and isinstance(unp[0].targets[0], ast.Tuple) and len(rets) == 1 and astu.src(rets[0].value) == astu.src(unp[0].targets[0].elts[1])
-  R.check(ok, key_of(m2, 'returns the variables (second element)'), m2, 'Module.init must return the second element (the variables) of init_with_output')
+  key = key_of(m2, 'returns the variables (second element)')
+  if len(unp) == 1 and isinstance(unp[0].targets[0], ast.Tuple) and len(unp[0].targets[0].elts) == 2 and len(rets) == 1 and isinstance(rets[0].value, ast.Name):
+    R.check(astu.src(rets[0].value) == astu.src(unp[0].targets[0].elts[1]), key, m2, 'Module.init must return the second element (the variables) of init_with_output', evidence=True)
+  else:
+    R.unsure(key, m2, 'Module.init: `_, v_out = self.init_with_output(...)` / `return v_out` not recognised')
 
 
 @rule('C01.R8', 'K8', 16, 'the mutability filter is exact membership (a name never matches by substring or inverted DenyList)')
@@ -424,6 +621,6 @@ meta('C01',
          Mutant('C01-m8', SC, "  return Scope(new_variables, rngs=rngs, mutable=mutable, flags=flags)", "  return Scope(variables if mutable is False else new_variables, rngs=rngs, mutable=mutable, flags=flags)", 'C01.R1'),
          Mutant('C01-m9', MO, "    return apply(\n      method,\n      self,\n      mutable=mutable,\n      capture_intermediates=capture_intermediates,\n    )(variables, *args, **kwargs, rngs=rngs)",
                 "    return apply(\n      method,\n      self,\n      mutable=mutable,\n    )(variables, *args, **kwargs, rngs=rngs)", 'C01.R7'),
-         Mutant('C01-m10', TR, "    object.__setattr__(x, 'scope', None)", "    object.__setattr__(x, 'scope', None)\n    object.__setattr__(x, 'name', None)", 'C01.R5'),
+         Mutant('C01-m10', MO, "    del args\n    scope = core.bind(", "    del args\n    object.__setattr__(self, 'parent', None)\n    scope = core.bind(", 'C01.R5'),
          Mutant('C01-b1', SC, "  new_variables = _unfreeze_variables(variables, mutable)\n  return Scope(new_variables, rngs=rngs, mutable=mutable, flags=flags)", "  fresh = _unfreeze_variables(variables, mutable)\n  scope = Scope(fresh, rngs=rngs, mutable=mutable, flags=flags)\n  return scope", kind='benign'),
      ])
